@@ -429,7 +429,7 @@ package decoder
 //@ func unsafe_New(t) (p)
 //@   props C07
 //@   trusted go:linkname reflect.unsafe_New: a fresh zeroed object of type t
-//@   ensures p != nil
+//@   ensures p != nil && rsize(t) >= 0 && freshregion(p, rsize(t))
 //@   assigns nothing
 
 // The array decoder may write only inside the alen*size bytes of the destination array; every element
@@ -1031,3 +1031,30 @@ package decoder
 //@   assigns all
 //@   loop 1: invariant old(cursor) < cursor && cursor < len(buf) && buf == old(ctx.Buf) && ctx.Buf == buf && buf[len(buf)-1] == 0 && b == ptrOf(buf) && buflen == len(buf)
 //@   loop 1: invariant ctx.Option != nil
+
+// ---------------------------------------------------------------- map decoding (C07, C06)
+//@ func makemap(t, n) (m)
+//@   props C07
+//@   trusted go:linkname reflect.makemap: a new map; map storage is outside the memory modelled here
+//@   ensures m != nil
+//@   assigns nothing
+
+//@ func (*mapDecoder).mapassign(d, t, m, k, v)
+//@   props C07
+//@   trusted dispatches to the runtime's mapassign variants: they copy *k and *v into map storage (outside the memory modelled here) and write nothing else
+//@   assigns nothing
+
+// A map destination is one pointer word. Keys and values are decoded into fresh objects of the key and
+// value types (big enough for their decoders: assumed of the compiler) and handed to the runtime; the
+// only write to the destination is the map pointer itself.
+//@ func (*mapDecoder).Decode(d, ctx, cursor, depth, p) (c, err)
+//@   props C07 C06
+//@   requires d != nil && d.keyDecoder != nil && d.valueDecoder != nil && ctx != nil && bufOK(ctx.Buf, cursor)
+//@   requires p != nil && region(p, 8) && dstApart(p, 8, ctx.Buf) && region(ptrOf(ctx.Buf), len(ctx.Buf))
+//@   requires 0 <= dsize(dataOf(d.keyDecoder)) && dsize(dataOf(d.keyDecoder)) <= rsize(d.keyType) && 0 <= dsize(dataOf(d.valueDecoder)) && dsize(dataOf(d.valueDecoder)) <= rsize(d.valueType)
+//@   ensures err == nil ==> cursor < c && c < len(old(ctx.Buf))
+//@   assigns all
+// decoders are immutable while decoding (assumed, as for the slice decoder)
+//@   postassume Decode: d.keyDecoder == old(d.keyDecoder) && d.valueDecoder == old(d.valueDecoder) && d.keyType == old(d.keyType) && d.valueType == old(d.valueType)
+//@   loop 1: invariant old(cursor) < cursor && cursor < len(buf) && buf == old(ctx.Buf) && ctx.Buf == buf && buf[len(buf)-1] == 0 && buflen == len(buf)
+//@   loop 1: invariant d.keyDecoder == old(d.keyDecoder) && d.valueDecoder == old(d.valueDecoder) && d.keyType == old(d.keyType) && d.valueType == old(d.valueType)
